@@ -121,3 +121,30 @@ package aggregator
 //@ struct EncoderAggregatorConfig
 //@ props C06 C17
 //@ tag Sink validate required
+
+// ---------------------------------------------------------------- the log and discard aggregators
+
+// The log aggregator queues every report and logs every queued sample, also the ones still queued when the run ends.
+//@ func (l *logging) Report
+//@ props C06
+//@ requires l.sink != nil
+//@ at send l.sink assert [the-reported-sample] value == sample
+//@ ensures [queued-never-dropped] sent(l.sink) == old(sent(l.sink)) + 1
+//@ modifies chanSent[l.sink]
+
+//@ func (l *logging) Run
+//@ props C06
+//@ requires l.sink != nil && deps.Log != nil && ctx != nil
+//@ at call l.handle#0 assert [every-received-sample-is-logged] arg(sample) == result_of(<-l.sink, 0)
+//@ at call l.handle#1 assert [samples-queued-at-the-end-are-logged-too] arg(sample) == result_of(<-l.sink, 0)
+//@ ensures [always-a-clean-end] result == nil
+
+//@ func NewLog
+//@ props C06
+//@ ensures typeis(result, *logging) && cap(result.(*logging).sink) == 128 && !closed(result.(*logging).sink)
+
+// The discard aggregator lives until the run is over and fails nothing.
+//@ func (discard) Run
+//@ props C06 C05
+//@ requires ctx != nil
+//@ ensures [ends-only-with-the-run] result == nil && done(ctx)
